@@ -56,7 +56,7 @@ class Rec(torch.nn.Module):
         self.cond._move_static_data(device)
 
 
-def build(cfg, log):
+def build(cfg, log, setting=None):
     model = Affine(cfg["a0"], cfg["b0"], tied=cfg.get("tied", False))
     kap = tp.models.Parameter(float(cfg["k0"]), tp.spaces.R1("kappa"))
     kap.as_tensor.data = kap.as_tensor.data.double()
@@ -104,7 +104,9 @@ def build(cfg, log):
     train = [mk(c, i + 1, True) for i, c in enumerate(cfg["train"])]
     val = [mk(c, 100 + i + 1, False) for i, c in enumerate(cfg["val"])]
     opt_args = {"momentum": cfg["mun"] / cfg["mud"]} if cfg["mun"] else {}
-    if cfg["ssize"] > 0:
+    if setting is not None:        # an OptimizerSetting object the caller shares between several Solvers
+        pass
+    elif cfg["ssize"] > 0:
         setting = tp.OptimizerSetting(torch.optim.SGD, lr=cfg["lrn"] / cfg["lrd"], **({"optimizer_args": opt_args} if opt_args else {}),
                                       scheduler_class=torch.optim.lr_scheduler.StepLR,
                                       scheduler_args={"step_size": cfg["ssize"], "gamma": cfg["gn"] / cfg["gd"]},
@@ -155,9 +157,19 @@ class Logger(pl.Callback):
         self.rec.append({"e": "val_end", "st": snapshot(self.objs, trainer)})
 
 
-def fit(cfg, steps, workdir, callbacks_extra=(), ckpt_path=None, log=None):
+def mk_setting(cfg):
+    """the OptimizerSetting of a configuration as ONE object (C19 hands the same object to all its Solvers)"""
+    opt_args = {"momentum": cfg["mun"] / cfg["mud"]} if cfg["mun"] else {}
+    kw = {"optimizer_args": opt_args} if opt_args else {}
+    if cfg["ssize"] > 0:
+        kw.update(scheduler_class=torch.optim.lr_scheduler.StepLR, scheduler_args={"step_size": cfg["ssize"], "gamma": cfg["gn"] / cfg["gd"]},
+                  scheduler_frequency=cfg["freq"])
+    return tp.OptimizerSetting(torch.optim.SGD, lr=cfg["lrn"] / cfg["lrd"], **kw)
+
+
+def fit(cfg, steps, workdir, callbacks_extra=(), ckpt_path=None, log=None, setting=None):
     log = [] if log is None else log
-    solver, objs = build(cfg, log)
+    solver, objs = build(cfg, log, setting=setting)
     cbs = [Logger(objs, log)] + list(callbacks_extra(objs) if callable(callbacks_extra) else callbacks_extra)
     kw = {}
     if cfg["val"]:
